@@ -7,11 +7,13 @@ is the write order with some batches missing (a request written on a connection 
 `Mon` accepts.
 
 The statement "`Mon.run {} full = some _`, `Thin full sub`, the record counts of `full` sum to less than 2^31
-⟹ `(LMon.init f).run sub` is `some _`" is FALSE as it stands; the two smallest kinds of counterexample are below
-(`counterexample_reset_inside_epoch`, 4 events, and `counterexample_epoch_reused`, 5 events). Both need a history
-in which the producer epoch is not tied to the `.reset` events: a batch that still carries the OLD epoch after a
-`.reset`, or an epoch number that comes back. Neither can be written by the client: `RecBuf.step .epochReset` emits
+⟹ `(LMon.init f).run sub` is `some _`" is FALSE as it stands; counterexamples are below
+(`counterexample_epoch_reused`, 5 events, and `counterexample_reset_inside_epoch`, 6 events). Both need a history
+in which the producer epoch is not tied to the `.reset` events: an epoch number that comes back, or a batch that still
+carries the OLD epoch after a `.reset`. Neither can be written by the client: `RecBuf.step .epochReset` emits
 `.reset` and bumps `epoch` in one step, and every batch is stamped with the current `epoch` (`wire_stamped`).
+(An earlier 4-event counterexample, a `.reset` seen before the first batch ARRIVES, was a weakness of `LMon.step`, which
+forgot that reset when it started; `LMon.step` now keeps it, see `reset_before_first_arrival_accepted`.)
 
 The extra hypothesis is therefore `Stamped c full`: there is an epoch counter, `c` at the start, every batch carries
 the current value of the counter, and every `.reset` moves the counter to a strictly larger value.
@@ -19,8 +21,8 @@ the current value of the counter, and every `.reset` moves the counter to a stri
 Main results (all without `sorry`; core Lean only):
 * `arrival_sound_inv`   — generalised form: any pair of related monitor states, with the invariant at the end
 * `arrival_sound`       — `Mon.run {} full = some m`, `Thin full sub`, `Stamped c full`, `total full < 2^31`
-                           ⟹ `(LMon.init start).run sub = some l` for every `start`, and whatever `l` holds under the
-                           epoch of `m` (chain and batches kept aside) is a batch of `m.chain`
+                           ⟹ `(LMon.init start).run sub = some l` for every `start`, and if `l` ends in the epoch
+                           `m` ends in, whatever `l` holds (chain and batches kept aside) is a batch of `m.chain`
 * `arrival_never_refuses` — the form asked for: `full = .batch e f n :: es`, `LMon.init f`, `.isSome`
 * `wire_stamped`        — everything the client model writes is `Stamped`
 * `counterexample_wrap` — the `total full < 2^31` hypothesis is needed as well (3 events). -/
@@ -47,23 +49,36 @@ def total : List Ev → Int
 
 /-! ### Counterexamples to the statement without `Stamped`, and without the bound on `total` -/
 
-/-- A `.reset` after which the OLD epoch is still used. Written: `1:0+1`, reset, `1:1+1`, `2:0+1` (accepted by `Mon`:
-the reset allows epoch 2). The first batch is lost. `LMon` starts with `1:1+1`, which arrives AFTER the reset, so the
-permission to change the epoch is consumed by it (`allow := false` when a monitor starts an epoch), and `2:0+1` is
-refused. No shorter counterexample exists: a refusal needs either two batches of different epochs with no `.reset`
-between them in `sub` while the monitor sits in an epoch it entered late (this one), or two different batches with one
-first sequence under one epoch, which with `total full < 2^31` needs the epoch to come back (the next one, 5 events). -/
-theorem counterexample_reset_inside_epoch :
+/-- Written: `1:0+1`, reset, `1:1+1`, `2:0+1` (accepted by `Mon`: the reset allows epoch 2). The first batch is lost, so
+the `.reset` is seen before the first batch arrives. `LMon` keeps that permission when it starts with `1:1+1` and
+accepts `2:0+1` (it used to forget it: `allow := false` at the start, a false alarm). -/
+example :
     (Mon.run {} [.batch 1 0 1, .reset, .batch 1 1 1, .batch 2 0 1]).isSome = true ∧
+    ((LMon.init 0).run [.reset, .batch 1 1 1, .batch 2 0 1]).isSome = true := by decide
+
+theorem reset_before_first_arrival_accepted :
     Thin [.batch 1 0 1, .reset, .batch 1 1 1, .batch 2 0 1] [.reset, .batch 1 1 1, .batch 2 0 1] ∧
-    total [.batch 1 0 1, .reset, .batch 1 1 1, .batch 2 0 1] < 2147483648 ∧
-    ((LMon.init 0).run [.reset, .batch 1 1 1, .batch 2 0 1]).isSome = false := by
-  refine ⟨by decide, ?_, by decide, by decide⟩
+    (((LMon.init 0).run [.reset, .batch 1 1 1, .batch 2 0 1]).map (fun l => (l.epoch, l.nextSeq, l.chain))) = some (2, 1, [(0, 1)]) := by
+  refine ⟨?_, by decide⟩
   exact .drop _ _ _ (.keep _ (.keep _ (.keep _ .nil)))
+
+/-- A `.reset` after which the OLD epoch is still used, in a monitor that has already started. Written: `0:0+1`, reset,
+`1:0+1`, reset, `1:1+1`, `2:0+1` (accepted by `Mon`: the second reset allows epoch 2). The first batch of epoch 1 is lost.
+`LMon` enters epoch 1 with `1:1+1`, which arrives AFTER the second reset, so both permissions to change the epoch are
+consumed by it (`allow := false` when a monitor enters a new epoch), and `2:0+1` is refused. One boolean `allow` cannot
+tell how many epoch changes the resets seen so far stand for. -/
+theorem counterexample_reset_inside_epoch :
+    (Mon.run {} [.batch 0 0 1, .reset, .batch 1 0 1, .reset, .batch 1 1 1, .batch 2 0 1]).isSome = true ∧
+    Thin [.batch 0 0 1, .reset, .batch 1 0 1, .reset, .batch 1 1 1, .batch 2 0 1]
+      [.batch 0 0 1, .reset, .reset, .batch 1 1 1, .batch 2 0 1] ∧
+    total [.batch 0 0 1, .reset, .batch 1 0 1, .reset, .batch 1 1 1, .batch 2 0 1] < 2147483648 ∧
+    ((LMon.init 0).run [.batch 0 0 1, .reset, .reset, .batch 1 1 1, .batch 2 0 1]).isSome = false := by
+  refine ⟨by decide, ?_, by decide, by decide⟩
+  exact .keep _ (.keep _ (.drop _ _ _ (.keep _ (.keep _ (.keep _ .nil)))))
 
 /-- An epoch number that comes back. Written: `0:0+1`, reset, `1:0+1`, reset, `0:0+2` (accepted by `Mon`: epoch 0 after
 epoch 1 is a new epoch). The only batch of epoch 1 is lost: `LMon` never leaves epoch 0 and sees `0+1` and `0+2`, two
-different batches with one first sequence. -/
+different batches with one first sequence. With `total full < 2^31` this is the shortest counterexample. -/
 theorem counterexample_epoch_reused :
     (Mon.run {} [.batch 0 0 1, .reset, .batch 1 0 1, .reset, .batch 0 0 2]).isSome = true ∧
     Thin [.batch 0 0 1, .reset, .batch 1 0 1, .reset, .batch 0 0 2] [.batch 0 0 1, .reset, .reset, .batch 0 0 2] ∧
@@ -279,12 +294,17 @@ theorem sameEpoch_ok (l : LMon) (f n : Int) (C : List (Int × Int))
         · exact hsub p (List.mem_append.2 (Or.inr h))
 
 /-- How the arrival monitor `l`, after a thinned prefix, relates to the write-order monitor `m` after the full prefix,
-when the epoch counter stands at `c`: either `l` is in the current epoch (then so is `m`, no `.reset` has been seen since,
-and `l` holds batches of `m.chain` only), or `l` is in an older epoch and has seen a `.reset` since. -/
+when the epoch counter stands at `c`: `l` is in the current epoch or in an older one; in an older one it has seen a
+`.reset` since; in the current one so is `m`; and whenever both are in one epoch `l` holds batches of `m.chain` only. -/
 def LInv (c : Int) (m : Mon) (l : LMon) : Prop :=
   l.started = true →
-    (l.epoch = c ∧ l.allow = false ∧ m.started = true ∧ m.epoch = c ∧ ∀ p ∈ l.chain ++ l.ahead, p ∈ m.chain)
-    ∨ (l.epoch < c ∧ l.allow = true)
+    m.started = true ∧ l.epoch ≤ c ∧ (l.epoch < c → l.allow = true) ∧ (l.epoch = c → m.epoch = c) ∧
+    (m.epoch = l.epoch → ∀ p ∈ l.chain ++ l.ahead, p ∈ m.chain)
+
+/-- the invariant for an arrival monitor that has just taken a batch under the current epoch -/
+theorem linv_current (c : Int) (m' : Mon) (l' : LMon) (hst' : m'.started = true) (hep' : m'.epoch = c)
+    (h3 : l'.epoch = c) (h5 : ∀ p ∈ l'.chain ++ l'.ahead, p ∈ m'.chain) : LInv c m' l' :=
+  fun _ => ⟨hst', by omega, fun h => by omega, fun _ => hep', fun _ => h5⟩
 
 /-- One batch that is written AND arrives. -/
 theorem lmon_step_batch (c : Int) (m m' : Mon) (l : LMon) (S f n : Int) (hi : MInv m S) (hS : S + n < 2147483648)
@@ -300,33 +320,38 @@ theorem lmon_step_batch (c : Int) (m m' : Mon) (l : LMon) (S f n : Int) (hi : MI
   | false =>
     simp only [Bool.not_false, if_true]
     obtain ⟨l', h1, h2, h3, h4, h5⟩ :=
-      sameEpoch_ok { l with started := true, epoch := c, chain := [], allow := false, ahead := [] } f n m'.chain
+      sameEpoch_ok { l with started := true, epoch := c, chain := [], ahead := [] } f n m'.chain
         (by intro p hp; simp at hp) hmem hi'.func
-    exact ⟨l', h1, fun _ => Or.inl ⟨h3, h4, hst', hep', h5⟩⟩
+    exact ⟨l', h1, linv_current c m' l' hst' hep' h3 h5⟩
   | true =>
     simp only [Bool.not_true, Bool.false_eq_true, if_false]
-    rcases hl hls with ⟨hle, hla, hms, hme, hsub⟩ | ⟨hle, hla⟩
-    · have hbeq : (c == l.epoch) = true := by simp [hle]
+    obtain ⟨hms, hle, hlt, heq, hsub⟩ := hl hls
+    by_cases hc : l.epoch = c
+    · have hme := heq hc
+      have hbeq : (c == l.epoch) = true := by simp [hc]
       simp only [hbeq, if_true]
       obtain ⟨l', h1, h2, h3, h4, h5⟩ :=
-        sameEpoch_ok l f n m'.chain (fun p hp => hmono hms hme p (hsub p hp)) hmem hi'.func
-      exact ⟨l', h1, fun _ => Or.inl ⟨by rw [h3, hle], by rw [h4, hla], hst', hep', h5⟩⟩
-    · have hbeq : (c == l.epoch) = false := by
+        sameEpoch_ok l f n m'.chain (fun p hp => hmono hms hme p (hsub (by rw [hme, hc]) p hp)) hmem hi'.func
+      exact ⟨l', h1, linv_current c m' l' hst' hep' (by rw [h3, hc]) h5⟩
+    · have hla := hlt (by omega)
+      have hbeq : (c == l.epoch) = false := by
         simp only [beq_eq_false_iff_ne, ne_eq]; omega
       simp only [hbeq, Bool.false_eq_true, if_false, hla, if_true]
       obtain ⟨l', h1, h2, h3, h4, h5⟩ :=
         sameEpoch_ok { started := true, epoch := c, nextSeq := 0, chain := [], allow := false, ahead := [] } f n m'.chain
           (by intro p hp; simp at hp) hmem hi'.func
-      exact ⟨l', h1, fun _ => Or.inl ⟨h3, h4, hst', hep', h5⟩⟩
+      exact ⟨l', h1, linv_current c m' l' hst' hep' h3 h5⟩
 
 /-- One batch that is written and LOST. -/
 theorem lmon_skip_batch (c : Int) (m m' : Mon) (l : LMon) (S f n : Int) (hi : MInv m S) (hS : S + n < 2147483648)
     (hl : LInv c m l) (h : m.step (.batch c f n) = some m') : LInv c m' l := by
   obtain ⟨_, hst', hep', _, _, hmono⟩ := mon_step_batch m m' S c f n hi hS h
   intro hls
-  rcases hl hls with ⟨hle, hla, hms, hme, hsub⟩ | h2
-  · exact Or.inl ⟨hle, hla, hst', hep', fun p hp => hmono hms hme p (hsub p hp)⟩
-  · exact Or.inr h2
+  obtain ⟨hms, hle, hlt, heq, hsub⟩ := hl hls
+  refine ⟨hst', hle, hlt, fun _ => hep', fun hml => ?_⟩
+  have hc : l.epoch = c := by omega
+  have hme := heq hc
+  exact fun p hp => hmono hms hme p (hsub (by rw [hme, hc]) p hp)
 
 /-- **Soundness with respect to losses, general form.** From related states (`MInv`, `LInv`), with the remaining
 budget of records below 2^31, whatever `Mon` accepts as a write order `LMon` accepts in every thinned view; the final
@@ -353,9 +378,8 @@ theorem arrival_sound_inv {full sub : List Ev} (ht : Thin full sub) :
         simp only [LMon.run, LMon.step]
         refine ih c' S { m with allow := true } mf { l with allow := true } hst' ⟨hi.nonneg, hi.pos, hi.func⟩ hS ?_ h
         intro hls
-        rcases hl hls with ⟨hle, _⟩ | ⟨hle, _⟩
-        · exact Or.inr ⟨by show l.epoch < c'; omega, rfl⟩
-        · exact Or.inr ⟨by show l.epoch < c'; omega, rfl⟩
+        obtain ⟨hms, hle, _, _, hsub⟩ := hl hls
+        exact ⟨hms, by show l.epoch ≤ c'; omega, fun _ => rfl, fun h => by (have : l.epoch = c' := h); omega, hsub⟩
       | batch e f n =>
         obtain ⟨hec, hst'⟩ := hst
         subst hec
@@ -388,14 +412,12 @@ theorem arrival_sound (start c : Int) (full sub : List Ev) (m : Mon)
     (hacc : Mon.run {} full = some m) (hthin : Thin full sub) (hst : Stamped c full)
     (hsum : total full < 2147483648) :
     ∃ l, (LMon.init start).run sub = some l ∧
-      (l.started = true → l.epoch = m.epoch → l.allow = false → ∀ p ∈ l.chain ++ l.ahead, p ∈ m.chain) := by
+      (l.started = true → l.epoch = m.epoch → ∀ p ∈ l.chain ++ l.ahead, p ∈ m.chain) := by
   obtain ⟨l, c', hl, hinv⟩ :=
     arrival_sound_inv hthin c 0 {} m (LMon.init start) hst minv_init (by omega) (by intro h; simp [LMon.init] at h) hacc
   refine ⟨l, hl, ?_⟩
-  intro hs he ha
-  rcases hinv hs with ⟨_, _, _, _, h⟩ | ⟨_, h⟩
-  · exact h
-  · rw [ha] at h; cases h
+  intro hs he
+  exact (hinv hs).2.2.2.2 he.symm
 
 /-- The statement in the form it was asked for, with the one extra hypothesis `Stamped`. -/
 theorem arrival_never_refuses (e f n : Int) (es sub : List Ev) (m : Mon)
